@@ -91,7 +91,7 @@ PROPS["C02"] = _srv("C02", "c02",
     extra={"fault_share": True, "search_seeds": 1})
 PROPS["C07"] = _srv("C07", "c07",
     ["Rough.Props.C07.C07_only_wellformed", "Rough.Props.C07.C07_classify_total", "Rough.Props.C07.C07_no_amplification"], "Rough.Props.C07",
-    "datagrams of length 0..65507: nonces of aligned lengths 0..1400 (step 44 quick / 4 thorough) in classic, IETF and single-field form; boundary lengths 1020..2048 incl. unaligned; every frame-length value within +-16 of the true one; random junk of 0..65507 bytes; full batches of 64 minimum-size requests (maximum path depth) per protocol; plus mixed valid/invalid scenarios; each burst closed by a sentinel valid request. L1 = reply only to datagrams the reference classification accepts (1024..1500, well-formed), exactly one each, and |reply| <= |request|. non-trivial = scenario with at least one reply",
+    "datagrams of length 0..65507: nonces of aligned lengths 0..1400 (step 44 quick / 4 thorough) in classic, IETF and single-field form; boundary lengths 1020..2048 incl. unaligned; every frame-length value within +-16 of the true one; random junk of 0..65507 bytes; receive-buffer reuse (a 65507-byte datagram followed by short classic datagrams whose offsets point beyond their own end); full batches of 64 minimum-size requests (maximum path depth) per protocol; plus mixed valid/invalid scenarios; each burst closed by a sentinel valid request. L1 = reply only to datagrams the reference classification accepts (1024..1500, well-formed), exactly one each, and |reply| <= |request|. non-trivial = scenario with at least one reply",
     "Lean theorems: accepted => length 1024..1500, well-formed per reference classification, nonce of protocol length; classification never panics; every sent reply is <= 944 bytes and no longer than the accepted request that elicited it, for every batch of <= 255; tied to the code by in-process server runs judged by the reference classifier",
     "Lean 4 proof (classifier = reference classification; closed-form reply length) + differential server runs")
 PROPS["C08"] = _srv("C08", "c08",
@@ -143,9 +143,10 @@ PROPS["C10"] = {
 PROPS["C11"] = {
     "claimed": True, "module": "Rough.Props.C11",
     "theorems": ["Rough.Props.C11.C11_classic", "Rough.Props.C11.C11_ietf", "Rough.Props.C11.C11_radius", "Rough.Props.C11.C11_bracket", "Rough.Props.C11.C11_fields"],
-    "streams": [{"args": ["srep"], "shards_quick": 2, "shards_thorough": 8}, {"args": ["srv", "c02"], "shards_quick": 8, "shards_thorough": 16}],
+    "streams": [{"args": ["srep"], "shards_quick": 2, "shards_thorough": 8}, {"args": ["srv", "c11"], "shards_quick": 8, "shards_thorough": 16},
+                {"args": ["srv", "c02"], "shards_quick": 8, "shards_thorough": 16}],
     "ops": ["srep", "srv"], "trivial": r":rep=0$|overflow-panic", "min_nontrivial": 200,
-    "rule": "srep cases: OnlineKey::make_srep(version, UNIX_EPOCH + Duration::new(s, n), root) for s on a grid 0 .. 2^62 (epoch, 2038, 2106, 2200, 3000, 9999-12-31, last/first second around the u64 microsecond overflow, random) x n in {0,1,999,1000,1001,999999,999999000,999999999,random}, both versions: MIDP = floor(t/unit), RADI = 5 s, ROOT echoed, signature verifies under make_dele's key, SREP bytes equal the model's. srv cases: MIDP of every reply of a running server lies in the harness's clock bracket [t0, t1] taken around the scenario",
+    "rule": "srep cases: OnlineKey::make_srep(version, UNIX_EPOCH + Duration::new(s, n), root) for s on a grid 0 .. 2^62 (epoch, 2038, 2106, 2200, 3000, 9999-12-31, last/first second around the u64 microsecond overflow, random) x n in {0,1,999,1000,1001,999999,999999000,999999999,random}, both versions: MIDP = floor(t/unit), RADI = 5 s, ROOT echoed, signature verifies under make_dele's key, SREP bytes equal the model's. srv cases: MIDP of every reply of a running server lies in the harness's clock bracket taken around the BURST that elicited it; c11 scenarios insert idle periods of 1.1-2.2 s (the worker keeps polling) before bursts and bursts that contain only invalid datagrams, so a clock reading taken earlier than the signing of the batch is outside the bracket",
     "trusted_base": KEYS_TB, "assumptions": ["SystemTime::now() is the server clock; the harness brackets it with its own readings of the same clock", "classic midpoint arithmetic panics (overflow) only beyond year 584 554; the theorem's range hypothesis says so"],
     "design_ref": "5/C11",
     "level_text": "Lean theorems (pure arithmetic): midpoint = floor(clock/unit) for both versions over the whole non-overflowing range, radius = 5 s in unit, true time within [midp, midp+1 unit) inside midp +- radius, SREP carries exactly those fields; tied to the code by make_srep on a clock grid and by bracketing a running server",
@@ -172,7 +173,7 @@ PROPS["C01"] = {
     "theorems": ["Rough.Props.C01.C01_sound", "Rough.Props.C01.C01_no_replay"],
     "streams": [{"args": ["client-forged"], "shards_quick": 12, "shards_thorough": 16}],
     "ops": ["client"], "trivial": r"^$", "min_nontrivial": 100,
-    "rule": "client process runs with a pinned key (hex and base64), both protocols; per group an honest control and: bit flip / re-randomisation / last-byte change in each region SIG, NONC, PATH, INDX, SREP.{MIDP,RADI,ROOT,VER}, CERT.SIG, DELE.{PUBK,MINT,MAXT}; full re-signing by another long-term key; delegation or response signed under the other protocol's context; CERT spliced from the other protocol; whole response in the other protocol's format; response for another request of the same batch; own NONC with the other leaf's path; properly signed midpoint before/after/at the edge of the delegation window; replay of the previous run's genuine response; replay within a -n 2 run; truncation at 4-byte boundaries (9 quick / 110 thorough); random byte mutations; extension, garbage, empty datagram. L1 = a time line printed or exit 0 only if the independent `authentic` predicate (signature chain, window, Merkle binding of this request) holds, printed time = signed midpoint. L2 = exit status and printed fields equal the model's. every case distinct (fresh nonce)",
+    "rule": "client process runs with a pinned key (hex and base64), both protocols; per group an honest control and: bit flip / re-randomisation / last-byte change in each region SIG, NONC, PATH, INDX, SREP.{MIDP,RADI,ROOT,VER}, CERT.SIG, DELE.{PUBK,MINT,MAXT}; full re-signing by another long-term key; delegation or response signed under the other protocol's context; CERT spliced from the other protocol; whole response in the other protocol's format; response for another request of the same batch; own NONC with the other leaf's path; properly signed midpoint before/after/at the edge of the delegation window; replay of the previous run's genuine response; replay within a -n 2 run; stateful forgeries in a -n 2 run whose first response is genuine and whose second is forged (attacker DELE under the genuine CERT.SIG, attacker SREP under the genuine CERT, other long-term key, region flips, window); truncation at 4-byte boundaries (9 quick / 110 thorough); random byte mutations; extension, garbage, empty datagram. L1 = a time line printed or exit 0 only if the independent `authentic` predicate (signature chain, window, Merkle binding of this request) holds, printed time = signed midpoint. L2 = exit status and printed fields equal the model's. every case distinct (fresh nonce)",
     "trusted_base": CLIENT_TB,
     "assumptions": ["nonce freshness (SystemRandom) is outside the model; the harness checks that all nonces seen in a run are distinct (statistical)", "datagrams longer than the client's 4096-byte buffer are truncated by the OS before the client sees them"],
     "design_ref": "5/C01",
@@ -212,7 +213,7 @@ PROPS["C16"] = {
                  "Rough.Props.C16.C16_sources_agree", "Rough.Props.C16.C16_unknown_key_refused", "Rough.Props.C16.C16_missing_required", "Rough.Props.C16.C16_parse_show", "Rough.Props.C16.C16_sources_disagree_witness"],
     "streams": [{"args": ["cfg"], "shards_quick": 8, "shards_thorough": 16}],
     "ops": ["cfg"], "trivial": r"^cfg:base:", "min_nontrivial": 200,
-    "rule": "one probe process per case and source runs make_config + is_valid_config and prints every ServerConfig getter or `refused` (Err, false, or panic): each of port, batch_size, fault_percentage, num_workers, status_interval, health_check_port x 35 boundary values (-70000 .. 2^32+1 incl. 0, 1, 50/51, 64/65, 255/256/257, 300, 65535/65536, 70000, 83222) and non-integers, through the YAML file AND the documented environment variable; 60 (quick) / 400 (thorough) random in-range combinations incl. client_stats + persistence_directory; missing required keys; unknown keys; seeds of wrong length/alphabet and an all-digit seed; interface / kms_protection / client_stats variants. L1 = effective value equals written value when started, out-of-range / missing / unknown refused, both sources agree. non-trivial = any case that varies a setting",
+    "rule": "one probe process per case and source runs make_config + is_valid_config and prints every ServerConfig getter or `refused` (Err, false, or panic): each of port, batch_size, fault_percentage, num_workers, status_interval, health_check_port x 35 boundary values (-70000 .. 2^32+1 incl. 0, 1, 50/51, 64/65, 255/256/257, 300, 65535/65536, 70000, 83222) and non-integers, through the YAML file AND the documented environment variable; 60 (quick) / 400 (thorough) random in-range combinations incl. client_stats + persistence_directory; each out-of-range/invalid setting again in the company of client_stats+directory and other valid settings; missing required keys; unknown keys; seeds of wrong length/alphabet and an all-digit seed; interface / kms_protection / client_stats variants. L1 = effective value equals written value when started, out-of-range / missing / unknown refused, both sources agree. non-trivial = any case that varies a setting",
     "trusted_base": ["yaml-rust scalar typing and str::parse are represented by small functions of Model/Config.lean validated on the grid", "file-system facts for persistence_directory are a parameter of the model"],
     "assumptions": ["status_interval is documented only within 1..=65535 (the environment loader reads a u16, the file loader a u64)", "available_parallelism() is passed to the model as the default num_workers"],
     "design_ref": "5/C16",
@@ -227,7 +228,7 @@ PROPS["C15"] = {
     "theorems": ["Rough.Props.C15.C15_all_start", "Rough.Props.C15.C15_unfixed_witness", "Rough.Props.C15.C15_valid_preconditions"],
     "streams": [{"args": ["startup"], "shards_quick": 6, "shards_thorough": 16, "timeout": 1500}],
     "ops": ["startup"], "trivial": r"^$", "min_nontrivial": 8,
-    "rule": "the real server binary is started for each configuration: the repository's own example.cfg verbatim (ports substituted only if 8686/8000 are taken), a pairwise cover (quick, 11 configurations) / the grid num_workers 1..16 x health_check_port absent/present x 6 combinations of batch_size {1,2,63,64}, fault_percentage {0,1,50}, status_interval {1,10,600}, client_stats off/on+directory, file/ENV source (thorough, 192 configurations). Per configuration: thread names worker-0..worker-(n-1) in /proc before and after the probes, requests from fresh source ports until n distinct classic online keys answered, 20 sequential + 3x4 parallel TCP health connections expecting the exact HTTP response, UDP service afterwards, no 'panicked' in the output, SIGTERM -> exit 0. every configuration is a distinct non-trivial case",
+    "rule": "the real server binary is started for each configuration: the repository's own example.cfg verbatim (ports substituted only if 8686/8000 are taken), a pairwise cover (quick, 11 configurations) / the grid num_workers 1..16 x health_check_port absent/present x 6 combinations of batch_size {1,2,63,64}, fault_percentage {0,1,50}, status_interval {1,10,600}, client_stats off/on+directory, file/ENV source (thorough, 192 configurations). Per configuration: thread names worker-0..worker-(n-1) in /proc before and after the probes, requests from fresh source ports until n distinct classic online keys answered, 20 sequential + 3x4 parallel TCP health connections expecting the exact HTTP response, a burst of 50n+50 connections made pending at once (SIGSTOP/SIGCONT, n <= 4), UDP service afterwards, no 'panicked' in the output, SIGTERM -> exit 0. every configuration is a distinct non-trivial case",
     "trusted_base": PROC_TB,
     "assumptions": ["PARTIAL: the theorem covers the start-up resource logic (mutex, TCP bind rule, every start order) and the validator-implies-preconditions step; thread timing, accept-queue behaviour and memory use are only sampled by the process runs"],
     "design_ref": "5/C15",
@@ -252,7 +253,7 @@ PROPS["C19"] = {
                  "Rough.Props.C19.C19_flood_starves_unfixed", "Rough.Props.C19.C19_replies_complete"],
     "streams": [{"args": ["shutdown"], "shards_quick": 6, "shards_thorough": 16, "timeout": 1500}],
     "ops": ["sd"], "trivial": r"^$", "min_nontrivial": 10,
-    "rule": "real server binary, num_workers {1,4,16} x client_stats off/on x {SIGINT, SIGTERM} x regime {idle, closed-loop load from 4 harness threads, open-loop flood from 6 threads that keep the receive queue non-empty} x signal delay swept over 4 (quick) / 12 (thorough) values 0..300 ms: exit status, time to exit, panic output, and the last responses received before exit verified by the Lean spec verifier. L1 = exit 0 within 5 s, no panic, responses complete and valid. every run is a distinct case",
+    "rule": "real server binary, num_workers {1,4,16} x client_stats off/on x {SIGINT, SIGTERM} x regime {idle, closed-loop load from 4 harness threads, open-loop flood from 6 threads that keep the receive queue non-empty} x signal delay swept over 4 (quick) / 12 (thorough) values 0..300 ms x status_interval rotating default(600)/10/120: exit status, time to exit, panic output, and the last responses received before exit verified by the Lean spec verifier. L1 = exit 0 within 5 s, no panic, responses complete and valid. every run is a distinct case",
     "trusted_base": PROC_TB,
     "assumptions": ["PARTIAL: the theorem is about the polling-loop logic under an adversarial arrival process; the ctrlc signal thread, wall-clock latency and exit codes are only measured"],
     "design_ref": "5/C19",
